@@ -364,6 +364,44 @@ func archiveTour(res *core.Result, r *core.RNG, preRegistered bool) (*sim, error
 		}
 		res.Discarded++
 	}
+	// requests spread over the window, then a burst just after the first one has left it: the limiter's
+	// window slides (the requests at 3/4 of the window still count), it does not restart.  Certain
+	// violations only: four served archives whose send and receive stamps all lie within one window.
+	rate := time.Duration(server.VerifConsts()["apiArchiveRateMs"]) * time.Millisecond
+	limit := int(server.VerifConsts()["apiArchiveLimit"])
+	for attempt := 0; attempt < 5 && limit == 3; attempt++ {
+		time.Sleep(rate + 15*time.Millisecond)
+		type sv struct{ a, b time.Time }
+		var served []sv
+		get := func() {
+			a := time.Now()
+			rr := w.Raw("GET", "/api/v1/archive", nil)
+			if rr.Status == 200 {
+				served = append(served, sv{a, time.Now()})
+			}
+		}
+		t0 := time.Now()
+		get()
+		time.Sleep(time.Until(t0.Add(rate * 3 / 4)))
+		get()
+		get()
+		time.Sleep(time.Until(t0.Add(rate + 3*time.Millisecond)))
+		for i := 0; i < 4; i++ {
+			get()
+		}
+		if time.Since(t0) > rate*3/2 || len(served) < 3 {
+			res.Discarded++
+			continue
+		}
+		res.Count("archive.limiter-sliding")
+		for i := 0; i+3 < len(served); i++ {
+			if span := served[i+3].b.Sub(served[i].a); span < rate {
+				s.fail(fmt.Sprintf("4 archives were served within %v (limit 3 per %v): requests at 0, 3/4 and just after 1 window length", span, rate), "c14-rate-sliding")
+				break
+			}
+		}
+		break
+	}
 	time.Sleep(window)
 	s.archiveOnce(nil, "final")
 	return s, nil
@@ -390,7 +428,7 @@ func archiveWorker(res *core.Result, r *core.RNG, tier, out string) error {
 			s.finish(&items)
 		}
 	}
-	res.Required = []string{"archive.request", "archive.tour"}
+	res.Required = []string{"archive.request", "archive.tour", "archive.limiter-sliding"}
 	res.Rule = "every (gap between two archived files x write burst {new device + first report, registration + first device, rotation}) combination, quiet archives, request bursts against the limiter; zip opened with archive/zip and checked with the real Verify; non-trivial = archive taken with a burst in a gap; distinct by full history"
 	return writeServerCases(res, out, "archive", items)
 }
